@@ -97,11 +97,12 @@ LinkValue(k, l) ==
        IN IF raw < l.bias THEN [e |-> "other", v |-> 0]
           ELSE IF raw - l.bias > MaxOf(l.width) THEN [e |-> "overflow", v |-> 0]
           ELSE [e |-> "", v |-> raw - l.bias]
+\* the distances of all links are computed (and checked against their bias) before any is stored (and checked against its
+\* width): a bias error anywhere wins over an overflow
 FirstError ==
   IF err # "" THEN err
-  ELSE LET bad == {<<k, i>> \in {<<k, i>> : k \in DOMAIN All, i \in 1..MaxLinks} : i <= Len(All[k].links) /\ LinkValue(k, All[k].links[i]).e # ""}
-       IN IF bad = {} THEN ""
-          ELSE LET m == CHOOSE p \in bad : \A q \in bad : p[1] < q[1] \/ (p[1] = q[1] /\ p[2] <= q[2]) IN LinkValue(m[1], All[m[1]].links[m[2]]).e
+  ELSE LET LinkErrs == UNION {{LinkValue(k, All[k].links[i]).e : i \in DOMAIN All[k].links} : k \in DOMAIN All} \ {""}
+       IN IF "other" \in LinkErrs THEN "other" ELSE IF "overflow" \in LinkErrs THEN "overflow" ELSE ""
 Expected ==
   [error |-> FirstError, total |-> Total,
    objects |-> [k \in DOMAIN All |-> [pos |-> Pos(k), len |-> All[k].len, fill |-> All[k].fill,
